@@ -1,6 +1,6 @@
 /-
   C16 — property theorems (and non-vacuity examples) ONLY.  Helper lemmas: `Lemmas.lean`,
-  `Columns.lean`, `Ops.lean`, `Refine.lean`, `Steps.lean`, `ReadOnly.lean`, `RoSteps.lean`, `Lifetime.lean`.
+  `Columns.lean`, `Ops.lean`, `Refine.lean`, `Steps.lean`, `ReadOnly.lean`, `RoSteps.lean`, `Lifetime.lean`, `Builtins.lean`.
 
   Property text: "For every history of assignments, temporary assignments, function calls and
   returns, local declarations, exports, read-only marks and unsets, looking up a variable returns
@@ -14,7 +14,7 @@
   former into the latter.  All theorems are for every normalised set / every history, any number of
   contexts and names.
 -/
-import YashModel.Variable.Lifetime
+import YashModel.Variable.Builtins
 namespace YashModel.Variable
 
 /-! ### the normal form is an invariant -/
@@ -89,6 +89,34 @@ theorem env_exact (s : VariableSet) (h : Norm s) (names : List Name) (n : Name) 
     refine ⟨n, hn, ?_⟩
     simp only [hl, Option.bind_some]
     exact envEntry_of he hv hx h1 h2 h3
+
+/-- `get_scalar` reads the visible variable -/
+theorem getScalar_refines (s : VariableSet) (h : Norm s) (n : Name) : s.getScalar n = (abs s).getScalar n := by
+  unfold VariableSet.getScalar SSet.getScalar; rw [get_abs h n]
+
+/-- `extend_env` (import of the process environment): same abstract state, normal form kept -/
+theorem extendEnv_refines (ps : List (Name × String)) (s : VariableSet) (h : Norm s) :
+    abs (s.extendEnv ps) = (abs s).extendEnv ps ∧ Norm (s.extendEnv ps) := by
+  induction ps generalizing s with
+  | nil => exact ⟨rfl, h⟩
+  | cons p t ih =>
+    obtain ⟨n, v⟩ := p
+    have h1 := step_abs h (.assign n .global (.scalar v) none)
+    have key : abs (s.extendEnv1 n v) = (abs s).extendEnv1 n v ∧ Norm (s.extendEnv1 n v) := by
+      unfold VariableSet.extendEnv1 SSet.extendEnv1
+      cases hm : s.step (.assign n .global (.scalar v) none) with
+      | mk s1 r =>
+        cases hs : (abs s).step (.assign n .global (.scalar v) none) with
+        | mk X1 q =>
+          rw [hm, hs] at h1
+          obtain ⟨e1, e2, hN1⟩ := h1
+          simp only at e1 e2 hN1
+          subst e2
+          have h2 := step_abs hN1 (.export n .global true)
+          cases r <;> simp only [] <;> first | exact ⟨e1, hN1⟩ | (rw [← e1]; exact ⟨h2.1, h2.2.2⟩)
+    simp only [VariableSet.extendEnv, SSet.extendEnv]
+    rw [← key.1]
+    exact ih _ key.2
 
 /-- the positional parameters are those of the topmost regular context -/
 theorem positionalParams_refines (s : VariableSet) : s.positionalParams = (abs s).positionalParams :=
@@ -315,6 +343,97 @@ theorem function_global_assignment_persists (s : VariableSet) (h : Norm s) (as :
   obtain ⟨u, hu, hv⟩ := spec_function_global_persists (abs s) (baseReg_abs h) as ps n v loc
   exact ⟨u, by rw [get_abs hN, ha]; exact hu, hv⟩
 
+/-! ### built-in level clauses (the three seeded regressions of the evaluation rounds) -/
+
+/-- ★ `readonly_builtin_is_global`: `readonly NAME` / `readonly NAME=VALUE` executed in a function
+    body (called with any temporary assignments and arguments, from any normalised set — i.e. at any
+    nesting depth) acts at `Global` scope: after the function has returned, the variable visible
+    under NAME is read-only.  (With `Local` scope — the seeded change — the mark would be put on a
+    fresh local and vanish with it.) -/
+theorem readonly_builtin_is_global (s : VariableSet) (h : Norm s) (as : List (Name × Value))
+    (ps : List String) (n : Name) (ov : Option Value) (loc : Nat) :
+    ∃ u, (s.run (functionCmd as ps (readonlyOps n ov loc))).get n = some u ∧ u.isReadOnly = true := by
+  obtain ⟨ha, hN⟩ := run_abs_from h (functionCmd as ps (readonlyOps n ov loc))
+  have : ∃ first, readonlyOps n ov loc = [first, .readonly n .global loc] ∧
+      (first = .getOrNew n .global ∨ ∃ v l, first = .assign n .global v l) := by
+    cases ov with
+    | none => exact ⟨_, rfl, Or.inl rfl⟩
+    | some v => exact ⟨_, rfl, Or.inr ⟨v, none, rfl⟩⟩
+  obtain ⟨first, hops, hfirst⟩ := this
+  obtain ⟨u, hu, hro⟩ := spec_readonly_in_function (abs s) (baseReg_abs h) as ps n first loc hfirst
+  exact ⟨u, by rw [get_abs hN, ha, hops]; exact hu, hro⟩
+
+theorem pops_keep_nil (s : VariableSet) (n : Name) (hs : s.all n = []) (k : Nat) :
+    ((s.run (List.replicate k Op.pop)).all n) = [] := by
+  induction k generalizing s with
+  | zero => exact hs
+  | succ k ih =>
+    simp only [List.replicate_succ, VariableSet.run]
+    apply ih
+    simp only [VariableSet.step, VariableSet.popContext]
+    split
+    · exact hs
+    · simp [hs, popIf]
+
+/-- ★ `unset_builtin_removes_all_visible`: when `unset NAME` (`Global` scope, as the built-in uses)
+    succeeds, no context holds NAME any more — whichever contexts defined it (temporary, local,
+    outer locals, global): NAME is not found now, nor after returning from any number of enclosing
+    functions / commands -/
+theorem unset_builtin_removes_all_visible (s : VariableSet) (n : Name) (old : Option Variable)
+    (h : (s.step (.unset n .global)).2 = .unset old) (k : Nat) :
+    (s.step (.unset n .global)).1.all n = [] ∧
+    (((s.step (.unset n .global)).1.run (List.replicate k Op.pop)).get n) = none := by
+  have hnil : (s.step (.unset n .global)).1.all n = [] := by
+    have hp : partitionPoint (fun vic : VIC => decide (vic.ctx < indexOfContext .global s.contexts)) (s.all n) = 0 := by
+      unfold partitionPoint; cases s.all n <;> simp [indexOfContext]
+    simp only [VariableSet.step, VariableSet.unset, hp, List.drop_zero, List.take_zero] at h ⊢
+    cases hf : (s.all n).reverse.find? (fun vic => vic.var.isReadOnly) with
+    | some vic => rw [hf] at h; cases h
+    | none => simp [VariableSet.setStack]
+  refine ⟨hnil, ?_⟩
+  have := pops_keep_nil _ n hnil k
+  simp [VariableSet.get, this]
+
+/-- ★ `unset` (any scope) is refused as soon as one instance within the scope is read-only, and then
+    changes nothing (the model-level form of `spec_unset_touching_readonly_fails`) -/
+theorem unset_touching_readonly_refused (s : VariableSet) (h : Norm s) (n : Name) (scope : Scope) (e : VIC)
+    (he : e ∈ s.all n) (hin : indexOfContext scope s.contexts ≤ e.ctx) (hro : e.var.isReadOnly = true) :
+    ∃ l, s.unset n scope = (s, .readOnly l) := by
+  obtain ⟨hB, _⟩ := slice_reverse (s.all n) (indexOfContext scope s.contexts) (h.sorted n)
+  have hmem : e ∈ (s.all n).reverse.takeWhile (fun v => decide (indexOfContext scope s.contexts ≤ v.ctx)) :=
+    mem_takeWhile_of_dec _ _ _ (h.dec n) e (by simpa using he) hin
+  simp only [VariableSet.unset, hB]
+  cases hf : ((s.all n).reverse.takeWhile (fun v => decide (indexOfContext scope s.contexts ≤ v.ctx))).find?
+      (fun v => v.var.isReadOnly) with
+  | some vic => exact ⟨_, rfl⟩
+  | none => exact absurd hro (by simpa using List.find?_eq_none.mp hf e hmem)
+
+/-- ★ `temporary_assignment_scope`: for a call `others… NAME=VALUE f args…` from any normalised set,
+    inside the function (1) NAME is visible, exported, and has VALUE unless it was read-only;
+    (2) it is in the environment of every command the function runs (a further volatile context on
+    top does not hide it); and (3), by `function_call_lifetime`, it is gone after the return even if
+    the body declares a local of the same name (`get_or_new(Local)` does not touch the volatile
+    context *below* the function's regular context — the round-1 seeded change) -/
+theorem temporary_assignment_scope (s : VariableSet) (h : Norm s) (others : List (Name × Value))
+    (n : Name) (v : Value) (ps : List String) :
+    let inside := s.run (enterFunction (others ++ [(n, v)]) ps)
+    (∃ u, inside.get n = some u ∧ u.exported = true ∧ (u.isReadOnly = false → u.value = some v)) ∧
+    (∀ names, n ∈ names → (∀ u, inside.get n = some u → u.isReadOnly = false) →
+      n.toList.any (· == '=') = false → hasNul n = false → hasNul (valueString v) = false →
+      (n, valueString v) ∈ (inside.pushContext .volatile).env names) ∧
+    (s.run (functionCmd (others ++ [(n, v)]) ps [.getOrNew n .loc])).get n = s.get n := by
+  intro inside
+  obtain ⟨ha, hN⟩ := run_abs_from h (enterFunction (others ++ [(n, v)]) ps)
+  obtain ⟨u, hu, hx, hv⟩ := spec_temp_visible (abs s) others n v ps
+  have hget : inside.get n = some u := by rw [get_abs hN, ha]; exact hu
+  refine ⟨⟨u, hget, hx, hv⟩, ?_, ?_⟩
+  · intro names hn hnro h1 h2 h3
+    have hNp := (push_abs hN .volatile).2
+    rw [env_exact _ hNp]
+    refine ⟨hn, u, ?_, hx, ⟨v, hv (hnro u hget), rfl⟩, h1, h2, h3⟩
+    rw [(push_abs hN .volatile).1, lookup_push, ← get_abs hN]; exact hget
+  · exact (function_call_lifetime s h _ ps [.getOrNew n .loc] (by intro op hop; simp at hop; subst hop; rfl)).2.1 n
+
 /-- non-vacuity: inside the command the temporary assignment *is* visible and exported; after a
     regular command it is gone, after a special one it stays; a function's local and positional
     parameters vanish while its global assignment stays (and, having passed through the exported
@@ -329,6 +448,17 @@ example : (lt0.run (functionCmd [("x", .scalar "T")] ["a"]
     [.assign "y" .loc (.scalar "5") none, .setParams ["b", "c"]])).get "y" = none := by decide
 example : (lt0.run (functionCmd [("x", .scalar "T")] ["a"] [.assign "x" .global (.scalar "3") none])).get "x"
     = some { value := some (.scalar "3"), exported := true } := by decide
+
+/-- non-vacuity of the built-in level clauses: `f() { readonly x; }`, `f() { unset x; }` and a
+    temporary `x=T` seen from inside `f` -/
+example : ((lt0.run (functionCmd [] [] (readonlyOps "x" none 7))).get "x")
+    = some { value := some (.scalar "1"), readOnly := some 7 } := by decide
+example : ((lt0.run (functionCmd [("x", .scalar "T")] [] [.getOrNew "x" .loc, .unset "x" .global])).get "x") = none := by
+  decide
+example : ((lt0.run (enterFunction [("x", .scalar "T")] ["a"])).env ["x"]) = [("x", "T")] := by decide
+example : ((lt0.run (functionCmd [("x", .scalar "T")] ["a"] [.getOrNew "x" .loc])).get "x")
+    = some { value := some (.scalar "1") } := by decide
+
 
 /-! ### non-vacuity: a set with a hidden global, a local and a temporary variable -/
 
